@@ -113,6 +113,13 @@ impl CachedBlocks {
     }
   }
 
+  /// Select the ROM bank currently mapped at 0x4000-0x7fff. Blocks in that
+  /// region are cached per bank, so lookups and inserts need to know which
+  /// bank the addresses currently refer to.
+  pub fn set_rom_bank(&mut self, bank: u16) {
+    self.rom_high.set_bank(bank);
+  }
+
   pub fn get_region(&self, addr: u16) -> Option<&CacheRegion> {
     if addr < 0x4000 {
       return Some(&self.rom_low);
